@@ -4,7 +4,9 @@
 //                 copies the old frame; gta's funcDecl arm assigns the function symbol
 //                 unconditionally; scope.add allocates at the end; which first tokens make the
 //                 incremental parser prefix "package main;" and that everything else is wrapped in
-//                 main and its body returned; CompileAST appends main to the init list;
+//                 main and its body returned; CompileAST appends main to the init list, and only
+//                 when this program declares it; addMethod replaces a method declared again;
+//                 genGlobalVarDecl waits only for the variables of its own call;
 //   - pipeline    for Eval, EvalPath, eval, Compile, compileSrc, CompileAST, Execute: the calls to
 //                 the other functions of the pipeline, in source order, with the early returns;
 //   - shapes      the statements those facts were recognised from, as normalised source text;
@@ -190,6 +192,10 @@ func main() {
 			return "", err
 		}
 		fsetC, fc, err := common.ParseFile(repo, "interp/cfg.go")
+		if err != nil {
+			return "", err
+		}
+		fsetT, ft, err := common.ParseFile(repo, "interp/type.go")
 		if err != nil {
 			return "", err
 		}
@@ -393,8 +399,8 @@ func main() {
 			}
 			shape("wrapInMain", w)
 		}
-		// ---- CompileAST: main appended to the init list
-		mainAppended := false
+		// ---- CompileAST: main appended to the init list, only with the program that declares it
+		mainAppended, mainOwnOnly := false, false
 		{
 			fd := common.FindFunc(fp, "Interpreter", "CompileAST")
 			found := missing
@@ -406,8 +412,67 @@ func main() {
 					return true
 				})
 			}
-			mainAppended = found == "ifm:=gs.sym[mainID];pkgName==mainID&&m!=nil{initNodes=append(initNodes,m.node)}"
+			const always = "ifm:=gs.sym[mainID];pkgName==mainID&&m!=nil{initNodes=append(initNodes,m.node)}"
+			const own = "ifm:=gs.sym[mainID];pkgName==mainID&&m!=nil{fora:=m.node;a!=nil;a=a.anc{ifa==root{initNodes=append(initNodes,m.node)break}}}"
+			mainAppended = found == always || found == own
+			mainOwnOnly = found == own
 			shape("CompileAST.main", found)
+		}
+		// ---- addMethod: a method declared again replaces the earlier one
+		methodReplaces := false
+		{
+			fd := common.FindFunc(ft, "itype", "addMethod")
+			loop, after := missing, missing
+			if fd != nil && fd.Body != nil {
+				var rest []string
+				for _, st := range fd.Body.List {
+					if rs, ok := st.(*ast.RangeStmt); ok {
+						loop = "for" + norm(rs.Key) + "," + norm(rs.Value) + ":=range" + norm(rs.X) + norm(rs.Body)
+					} else {
+						rest = append(rest, norm(st))
+					}
+				}
+				after = strings.Join(rest, ";")
+			}
+			methodReplaces = loop == "fori,m:=ranget.method{ifm==n{return}ifm.ident==n.ident{t.method[i]=nreturn}}" && after == "t.method=append(t.method,n)"
+			shape("addMethod.loop", loop)
+			shape("addMethod.append", after)
+		}
+		// ---- genGlobalVarDecl: what a variable waits for
+		depsPendingOnly := false
+		{
+			fd := common.FindFunc(fc, "", "genGlobalVarDecl")
+			var waits, pend []string
+			if fd != nil {
+				ast.Inspect(fd, func(n ast.Node) bool {
+					switch x := n.(type) {
+					case *ast.IfStmt:
+						if strings.Contains(norm(x.Body), "canInit=false") && !strings.Contains(norm(x.Cond), "canInit") {
+							waits = append(waits, norm(x))
+						}
+					case *ast.RangeStmt:
+						if b := norm(x.Body); strings.HasPrefix(b, "{pending[") || strings.HasPrefix(b, "{inited[") {
+							pend = append(pend, "for"+norm(x.Key)+","+norm(x.Value)+":=range"+norm(x.X)+b)
+						}
+					case *ast.AssignStmt:
+						if l := norm(x.Lhs[0]); (l == "pending" || l == "inited" || strings.HasPrefix(l, "inited[")) && len(x.Lhs) == 1 {
+							pend = append(pend, norm(x))
+						}
+					case *ast.ExprStmt:
+						if c := norm(x); strings.HasPrefix(c, "delete(pending,") || strings.HasPrefix(c, "delete(inited,") {
+							pend = append(pend, c)
+						}
+					}
+					return true
+				})
+			}
+			w, pd := strings.Join(waits, ";"), strings.Join(pend, ";")
+			if fd == nil {
+				w, pd = missing, missing
+			}
+			depsPendingOnly = w == "ifpending[d]{canInit=false}" && pd == "pending:=map[*node]bool{};for_,n:=rangenodes{pending[n]=true};delete(pending,n)"
+			shape("genGlobalVarDecl.waits", w)
+			shape("genGlobalVarDecl.pending", pd)
 		}
 
 		// ---- pipeline
@@ -430,6 +495,7 @@ func main() {
 			common.HashTable(fsetS, fs, [][2]string{{"scope", "add"}, {"scope", "lookup"}, {"Interpreter", "initScopePkg"}, {"Interpreter", "Globals"}}),
 			common.HashTable(fsetC, fc, [][2]string{{"", "genGlobalVars"}, {"", "getVars"}, {"", "getVarDependencies"}}),
 			common.HashTable(fsetG, fg, [][2]string{{"Interpreter", "gtaRetry"}}),
+			common.HashTable(fsetT, ft, [][2]string{{"itype", "addMethod"}}),
 		}
 		return fmt.Sprintf(`import YaegiVerif.Model.Piecewise
 namespace YaegiVerif.Generated.C11
@@ -442,6 +508,9 @@ def facts : Facts :=
     declTokens := %s,
     wrapDefault := %s,
     mainAppended := %s,
+    mainOwnOnly := %s,
+    methodReplaces := %s,
+    depsPendingOnly := %s,
     iotaResetAtEnd := %s }
 /-- interp.go Eval, EvalPath, eval; program.go Compile, compileSrc, CompileAST, Execute: calls in source order -/
 def pipeline : CallGraph :=
@@ -453,7 +522,7 @@ def shapes : List (String × String) :=
 def sourceHashes : List (String × String) :=
   %s
 end YaegiVerif.Generated.C11
-`, leanBool(copies), leanBool(overwrites), leanBool(allocEnd), common.LeanStrList(declTokens), leanBool(wrapDefault), leanBool(mainAppended), leanBool(iotaReset),
+`, leanBool(copies), leanBool(overwrites), leanBool(allocEnd), common.LeanStrList(declTokens), leanBool(wrapDefault), leanBool(mainAppended), leanBool(mainOwnOnly), leanBool(methodReplaces), leanBool(depsPendingOnly), leanBool(iotaReset),
 			strings.Join(pipe, ",\n   "), strings.Join(shapeLines, ",\n   "), strings.Join(hashes, " ++\n  ")), nil
 	})
 }
